@@ -22,6 +22,7 @@ import (
 	"verif/pkg/ev"
 	"verif/pkg/keys"
 	"verif/pkg/stack"
+	"verif/pkg/starve"
 )
 
 type stackCaseT struct {
@@ -75,6 +76,7 @@ func runStackCase(c stackCaseT) (msg string, infra error) {
 	ctx, cancel := context.WithTimeout(context.Background(), dur+60*time.Second)
 	defer cancel()
 	deadline := time.Now().Add(dur)
+	hb := starve.Begin()
 	var ok, failed int64
 	var first atomic.Value
 	var wg sync.WaitGroup
@@ -105,6 +107,10 @@ func runStackCase(c stackCaseT) (msg string, infra error) {
 		}()
 	}
 	wg.Wait()
+	if w := hb.Settle(); failed > 0 && w > 300*time.Millisecond {
+		// this process itself was not scheduled for that long: says nothing about the channel
+		return "", fmt.Errorf("harness starved (heartbeat %v late) while %d reads failed", w.Round(time.Millisecond), failed)
+	}
 	if failed > 0 {
 		return fmt.Sprintf("opcua.Client against server.Server (%s/%v, token lifetime %d ms, %d workers): %d of %d reads failed or took more than 4 s while the token was renewed about %d times; first: %v", sec.Policy, sec.Mode, c.LifetimeMS, c.Workers, failed, ok+failed, c.Renewals, first.Load()), nil
 	}
